@@ -1085,3 +1085,34 @@ func (ts *TermStore) explode(s *Term) ([]*Term, bool) {
 	}
 	return nil, false
 }
+
+// builtFrom: every symbol (constant / variable leaf) of t was created before term id maxID, i.e. t is a
+// function of values that existed at that point.
+func (ts *TermStore) builtFrom(t *Term, maxID int) bool {
+	memo := map[int]bool{}
+	var walk func(t *Term) bool
+	walk = func(t *Term) bool {
+		if t.id <= maxID {
+			return true
+		}
+		if v, ok := memo[t.id]; ok {
+			return v
+		}
+		r := true
+		if len(t.args) == 0 {
+			r = t.kind == kLit || (t.kind == kApp && t.id <= maxID) || (t.kind == kApp && len(t.args) == 0 && t.kind != kVar)
+			if t.kind == kVar || t.kind == kBound {
+				r = false
+			}
+		}
+		for _, a := range t.args {
+			if !walk(a) {
+				r = false
+				break
+			}
+		}
+		memo[t.id] = r
+		return r
+	}
+	return walk(t)
+}
